@@ -12,9 +12,10 @@ from fractions import Fraction as Fr
 OPS = {'add': 2, 'sub': 2, 'neg': 1, 'mul': 2, 'sq': 1, 'mul_int': 1, 'mul_float': 1, 'lt': 2, 'le': 2, 'eq': 2, 'ne': 2, 'ge': 2, 'gt': 2,
        'div': 2, 'recip': 1, 'div_pub': 1, 'pow': 1, 'sin': 1, 'cos': 1, 'trunc': 1, 'abs': 1, 'sgn': 1, 'min2': 2, 'max2': 2, 'ifelse': 3, 'ifelse_l': 3,
        'ifswap_l0': 3, 'ifswap_l1': 3, 'sum': 3, 'prod': 3, 'inprod': 4, 'scalar_mul': 3, 'schur': 4, 'vadd': 4, 'vsub': 4, 'matprod': 4, 'argmin_v': 3,
-       'argmax_v': 3, 'minl': 3, 'maxl': 3, 'lshift': 1, 'mod_pub': 1, 'floordiv_pub': 1, 'addc': 1, 'rsubc': 1, 'sorted0': 3, 'add_int': 1, 'int_of': 1}
+       'argmax_v': 3, 'minl': 3, 'maxl': 3, 'lshift': 1, 'mod_pub': 1, 'floordiv_pub': 1, 'addc': 1, 'rsubc': 1, 'sorted0': 3, 'add_int': 1, 'int_of': 1,
+       'ifelse_c': 3, 'ifswap_c0': 3, 'ifswap_c1': 3, 'ifelse_cl': 3}
 CHEAP = ['add', 'sub', 'neg', 'mul', 'sq', 'mul_int', 'mul_float', 'lt', 'eq', 'ge', 'ifelse', 'sum', 'inprod', 'scalar_mul', 'schur', 'vadd', 'abs', 'max2',
-         'ifelse_l', 'ifswap_l0', 'ifswap_l1', 'addc', 'matprod', 'prod', 'argmin_v', 'lshift', 'add_int']
+         'ifelse_l', 'ifswap_l0', 'ifswap_l1', 'addc', 'matprod', 'prod', 'argmin_v', 'lshift', 'add_int', 'ifelse_c', 'ifswap_c0', 'ifswap_c1', 'ifelse_cl', 'lt', 'ge']
 ARITH = list(OPS)
 
 
@@ -57,6 +58,10 @@ def ref_units(op, X, c, f):
     if op == 'ifelse_l': return Fr((X[1] if X[0] < X[2] else X[2]) + (X[0] if X[0] < X[2] else X[1]))
     if op == 'ifswap_l0': return Fr(X[2] if X[0] < X[1] else X[1])
     if op == 'ifswap_l1': return Fr(X[1] if X[0] < X[1] else X[2])
+    if op == 'ifelse_c': return Fr(X[1] if X[0] else X[2])             # condition is an existing 0/1 node (reused elsewhere)
+    if op == 'ifelse_cl': return Fr((X[1] if X[0] else X[2]) + (X[2] if X[0] else X[1]))
+    if op == 'ifswap_c0': return Fr(X[2] if X[0] else X[1])
+    if op == 'ifswap_c1': return Fr(X[1] if X[0] else X[2])
     if op == 'sum': return Fr(sum(X))
     if op == 'prod': return None                       # two roundings: judged with 2 + |x| units below
     if op == 'inprod': return Fr(X[0] * X[1] + X[2] * X[3], u)
@@ -82,7 +87,7 @@ def tolerance(op, X, c, f):
     u = 1 << f
     absx = Fr(abs(X[0]), u) if X else 0
     exact = ('add', 'sub', 'neg', 'lt', 'le', 'eq', 'ne', 'ge', 'gt', 'abs', 'sgn', 'min2', 'max2', 'minl', 'maxl', 'ifelse', 'ifelse_l', 'ifswap_l0', 'ifswap_l1',
-             'sum', 'vadd', 'vsub', 'argmin_v', 'argmax_v', 'sorted0', 'lshift', 'mod_pub', 'addc', 'rsubc', 'mul_int', 'add_int')
+             'sum', 'vadd', 'vsub', 'argmin_v', 'argmax_v', 'sorted0', 'lshift', 'mod_pub', 'addc', 'rsubc', 'mul_int', 'add_int', 'ifelse_c', 'ifelse_cl', 'ifswap_c0', 'ifswap_c1')
     if op in exact:
         return Fr(0), 'exact'
     if op in ('mul', 'sq'):
@@ -159,6 +164,15 @@ def gen(rng, m, l=16, f=8, n_steps=(3, 8), ops=CHEAP, n_inputs=(3, 5), features=
             d = X[1] if op == 'div' else X[0]
             if abs(d) < 1:
                 continue
+        if op in ('ifelse_c', 'ifelse_cl', 'ifswap_c0', 'ifswap_c1'):
+            # the condition must be a 0/1-valued node produced by a comparison
+            k0 = args[0] - len(inputs)
+            if k0 < 0 or steps[k0][0] not in ('lt', 'le', 'eq', 'ne', 'ge', 'gt'):
+                cands = [len(inputs) + j for j, st in enumerate(steps) if st[0] in ('lt', 'le', 'eq', 'ne', 'ge', 'gt')]
+                if not cands:
+                    continue
+                args[0] = rng.choice(cands)
+                X[0] = vals[args[0]]
         if op in ('sin', 'cos') and abs(X[0]) > 8 * u:
             continue
         if op == 'int_of' and False:
@@ -237,6 +251,12 @@ def apply_op(mpc, secfxp, op, x, c):
         return r[0] + r[1]
     if op == 'ifswap_l0': return mpc.if_swap(x[0] < x[1], [x[1], x[0]], [x[2], x[0]])[0][0]
     if op == 'ifswap_l1': return mpc.if_swap(x[0] < x[1], [x[1], x[0]], [x[2], x[0]])[1][0]
+    if op == 'ifelse_c': return mpc.if_else(x[0], x[1], x[2])
+    if op == 'ifelse_cl':
+        r = mpc.if_else(x[0], [x[1], x[2]], [x[2], x[1]])
+        return r[0] + r[1]
+    if op == 'ifswap_c0': return mpc.if_swap(x[0], [x[1], x[2]], [x[2], x[1]])[0][0]
+    if op == 'ifswap_c1': return mpc.if_swap(x[0], x[1], x[2])[1]
     if op == 'sum': return mpc.sum(list(x))
     if op == 'prod': return mpc.prod(list(x))
     if op == 'inprod': return mpc.in_prod([x[0], x[2]], [x[1], x[3]])
